@@ -22,6 +22,7 @@ type Options struct {
 	HostileIDs     bool
 	ServiceNoNode  bool // a root-only service may omit node
 	EmptyAbstract  bool // abstract types without members (C07 only)
+	IdOnlyNode     bool // an entity type with no field besides id (C07 only)
 	ForceMutations bool
 	NodeShapedRoot bool // a Query field other than node with the shape (id: ID!): Node (labelled class)
 	MinServices    int
@@ -333,6 +334,11 @@ func Generate(t *rapid.T, opt Options) *Model {
 	for i := 0; i < nNode; i++ {
 		m.Objects = append(m.Objects, &Object{Name: nodeNames[i], IsNode: true})
 	}
+	if opt.IdOnlyNode && g.chance(50, "idonlynode") {
+		// an entity type nobody has a field for besides id (a marker that is only referred to)
+		m.Objects = append(m.Objects, &Object{Name: "Marker", IsNode: true, NoFields: true})
+		m.Labels["idOnlyNodeType"] = true
+	}
 	// value types
 	if opt.ValueTypes {
 		nVal := g.pick(3, "valueTypes")
@@ -350,7 +356,7 @@ func Generate(t *rapid.T, opt Options) *Model {
 	if opt.Interfaces && nNode >= 1 && g.chance(ifacePct, "iface") {
 		x := &Iface{Name: "Being", OverNode: true}
 		for _, o := range m.Objects {
-			if o.IsNode && (len(x.Members) == 0 || g.chance(memberPct, "imem")) {
+			if o.IsNode && !o.NoFields && (len(x.Members) == 0 || g.chance(memberPct, "imem")) {
 				x.Members = append(x.Members, o.Name)
 				o.Implements = append(o.Implements, x.Name)
 			}
@@ -380,7 +386,7 @@ func Generate(t *rapid.T, opt Options) *Model {
 	if opt.Unions && nNode >= 1 && g.chance(40, "union") {
 		u := &Union{Name: "Thing", OverNode: true}
 		for _, o := range m.Objects {
-			if o.IsNode && (len(u.Members) == 0 || g.chance(60, "umem")) {
+			if o.IsNode && !o.NoFields && (len(u.Members) == 0 || g.chance(60, "umem")) {
 				u.Members = append(u.Members, o.Name)
 			}
 		}
@@ -412,6 +418,9 @@ func Generate(t *rapid.T, opt Options) *Model {
 	}
 	// object fields
 	for _, o := range m.Objects {
+		if o.NoFields {
+			continue
+		}
 		used := map[string]bool{"id": true}
 		for _, in := range o.Implements {
 			for _, f := range m.Iface(in).Fields {
@@ -447,6 +456,10 @@ func Generate(t *rapid.T, opt Options) *Model {
 		f := g.newField([]int{owner}, owner, used, 75)
 		f.Name = g.rootName("get", f, used)
 		m.Roots["Query"] = append(m.Roots["Query"], f)
+	}
+	if mk := m.Object("Marker"); mk != nil && mk.NoFields {
+		owner := g.pick(k, "markerowner")
+		m.Roots["Query"] = append(m.Roots["Query"], &Field{Name: "theMarker", Type: TypeRef{Name: "Marker", Kind: KNode}, Owner: owner})
 	}
 	if opt.Mutations && (g.chance(50, "hasmut") || opt.ForceMutations) {
 		nM := 1 + g.pick(3, "nmut")
